@@ -12,7 +12,8 @@ def handlers : List (String → List String → Option String) :=
   [FuModel.Drv.Xargs.handle, FuModel.Drv.Xargs.handleRun]
 
 def preds : List (String × (List String → List String → Option Bool)) :=
-  [("C05", FuModel.Drv.Xargs.pred), ("C04", FuModel.Drv.Xargs.predC04)]
+  [("C05", FuModel.Drv.Xargs.pred), ("C04", FuModel.Drv.Xargs.predC04),
+   ("C19", FuModel.Drv.Xargs.predC19), ("C20", FuModel.Drv.Xargs.predC20)]
 
 def splitAt (xs : List String) (sep : String) : List String × List String :=
   (xs.takeWhile (· != sep), (xs.dropWhile (· != sep)).drop 1)
